@@ -412,19 +412,26 @@ func cmdDeterminism(args []string) {
 	tier := fs.String("tier", "quick", "tier")
 	seed := fs.Uint64("seed", 1, "seed")
 	runs := fs.Int("runs", 50, "runs")
+	spin := fs.Bool("spin", false, "use the spin baton of the controlled race lane (run with the harness-race binary)")
 	fs.StringVar(&fixtureDir, "fixtures", fixtureDir, "fixtures")
 	fs.Parse(args)
-	if os.Getenv("SLIMSIM_KEEP_GOMAXPROCS") == "" {
+	if os.Getenv("SLIMSIM_KEEP_GOMAXPROCS") == "" || *spin {
 		runtime.GOMAXPROCS(1)
 	}
-	debug.SetGCPercent(-1)
-	debug.SetMemoryLimit(3 << 30)
+	lane := "sim"
+	if *spin {
+		spinTransport = true
+		lane = "racesim"
+	} else {
+		debug.SetGCPercent(-1)
+		debug.SetMemoryLimit(3 << 30)
+	}
 	startWatchdog(180 * time.Second)
 	bad, replayed := 0, 0
 	for run := 0; run < *runs; run++ {
-		scn := generate(*prop, *tier, "sim", *seed, 0, run)
+		scn := generate(*prop, *tier, lane, *seed, 0, run)
 		a := execute(scn)
-		b := execute(generate(*prop, *tier, "sim", *seed, 0, run))
+		b := execute(generate(*prop, *tier, lane, *seed, 0, run))
 		if a.EvHash != b.EvHash || a.Steps != b.Steps || (a.Viol == nil) != (b.Viol == nil) {
 			fmt.Printf("DIVERGENCE seed=%d run=%d: same seed twice: %016x/%d vs %016x/%d\n", *seed, run, a.EvHash, a.Steps, b.EvHash, b.Steps)
 			bad++
